@@ -73,6 +73,27 @@ def _factory(params, env=None):
                 s = e.choose("step", 3)
                 h.hist.append("s%d" % s)
                 h.step(s)
+            if params.get("midbatch"):
+                # a stop request lands while an intake batch is being applied: at the k-th event handed over by events()
+                sd = e.choose("batch_side", 2)
+                extra = OPS[e.choose("op", len(OPS))]
+                user(sd, extra, 7)                      # make sure that side's batch holds at least this event (plus what is still pending)
+                kk = e.choose("stop_at_event", 3)
+                p_ = lab.p[sd]
+                orig_events = p_.events
+                em = lab.cs.emgrs[sd]
+
+                def ev():
+                    for i, x in enumerate(orig_events()):
+                        if i == kk:
+                            em.stop(forever=True, wait=False)
+                        yield x
+                p_.events = ev
+                h.hist.append("MIDBATCH side=%d at-event=%d" % (sd, kk))
+                try:
+                    lab.step(sd)
+                finally:
+                    p_.events = orig_events
             h.hist.append("STOP")
             lab.stop_engine()
             for k in range(params["offline"]):
@@ -148,6 +169,9 @@ def jobs(tier):
                 for op in OPS:
                     out.append({"harness": "restart", "params": {"flavour": f, "variant": v, "maxcut": 2 if q else 4, "offline": 1, "first": [side, op]},
                                 "label": "%s/%s/first=%d:%s" % (f, v, side, op)})
+                    if v == "intact" and f in ("oid", "path"):
+                        out.append({"harness": "restart", "params": {"flavour": f, "variant": v, "maxcut": 1, "offline": 0, "midbatch": True, "first": [side, op]},
+                                    "label": "%s/%s/stop-mid-batch/first=%d:%s" % (f, v, side, op)})
                     if not q and f in ("oid", "path"):
                         out.append({"harness": "restart", "params": {"flavour": f, "variant": v, "maxcut": 1, "offline": 2, "first": [side, op]},
                                     "label": "%s/%s/2-offline/first=%d:%s" % (f, v, side, op)})
@@ -163,7 +187,7 @@ def meta(tier):
                        "untouched file is not re-transferred (deletions during the outage are not required to propagate: a walk cannot see them).",
         "bounds": {"operations": OPS, "cut": "0..2 (0..4) engine steps after the first operation", "offline operations": "1 (thorough: also 2 with a cut of 0..1 steps on two flavours)", "variants": VARIANTS, "flavours": "oid, path (thorough + mixed, case-insensitive)"},
         "symbolic": ["first operation (split over jobs), cut position and the steps before it, offline operations"],
-        "outside": ["SqliteStorage file durability (C09 covers its map semantics)", "stops in the middle of a step (C07)", "longer histories"],
+        "outside": ["SqliteStorage file durability (C09 covers its map semantics)", "process death in the middle of a step (C07); a graceful stop request landing inside an intake batch IS covered (stop-mid-batch jobs)", "longer histories"],
         "stubs": ["engine lab determinisation; the accounts' event logs persist across the restart, the provider objects' cursor position is reset to 'latest'"],
         "assumptions": ["a provider account keeps its event log across client restarts (as cloud providers with server-side cursors do)"],
     }
